@@ -196,6 +196,15 @@ class Kernel:
             self._kill_all()
             raise SimKilled()
         ks = self.kill_spec
+        if ks and 'before' in ks and not self.killed:
+            b = ks['before']
+            if kind == b['kind'] and str(detail).endswith(b.get('endswith', '')):
+                self._after_count += 1
+                if self._after_count >= b.get('nth', 1):
+                    self.kill_step = self.step
+                    self.kill_context = '%s before %s %s' % (me.name, kind, detail)
+                    self._kill_all()
+                    raise SimKilled()
         if ks and 'after' in ks and self.kill_at_step is None:
             a = ks['after']
             if kind == a['kind'] and str(detail).endswith(a.get('endswith', '')):
